@@ -7,6 +7,8 @@ import (
 	"fmt"
 	"io"
 	"mime"
+	"os"
+	"path/filepath"
 	"strconv"
 	"strings"
 	"sync"
@@ -261,4 +263,228 @@ func TestVerif_C17_e2eupmulti(t *testing.T) {
 		c17Done(c)
 	}
 	s.Finish()
+}
+
+// TestVerif_C17_e2edlhops: downloads whose final response is preceded by OTHER exchanges with
+// bodies of their own: the download callback must report the final response only.
+func TestVerif_C17_e2edlhops(t *testing.T) {
+	s := verifh.New(t, "C17", "e2edlhops",
+		"downloads (file 1 B … 100 KB, Content-Length or chunked) over HTTP/1.1, HTTP/2, HTTP/3 reached through 0..3 redirect hops (301 302 303 307 308) whose responses carry bodies of 0 / 37 / 2047 / 2048 / 2049 / 5000 bytes (smaller AND larger than the file), and/or a 103 interim response, a digest 401 challenge with a body, a first attempt answered 503 with a body and retried; download callback with interval 0 or 1 h; SetOutput / SetOutputFile / no output (then no wrapper is installed: no report). Oracle: the reports split into one strictly increasing run per ATTEMPT, each run at most — and ending at — the size of the body that attempt ended with; nothing of a hop's or challenge's body is ever reported; the saved bytes of the last attempt are the file. For 1 h the sequence equals the model's (`c17dlhops` = runDownloadAttempts). non-trivial = at least one preceding exchange with a body")
+	r := s.Rand()
+	dir := t.TempDir()
+	origins := map[string]*c17Origin{"h1": c17NewOrigin("h1"), "h2": c17NewOrigin("h2"), "h3": c17NewOrigin("h3")}
+	defer origins["h1"].stop()
+	defer origins["h2"].stop()
+	defer origins["h3"].stop()
+	n := verifh.N(90, 3000)
+	for i := 0; i < n; i++ {
+		proto := []string{"h1", "h2", "h3"}[i%3]
+		o := origins[proto]
+		c := c17Client(proto)
+		size := verifh.Pick(r, []int{1, 100, 100, 4000, 100000})
+		data := c17Pattern(size, i)
+		id := "h" + strconv.Itoa(i)
+		o.mu.Lock()
+		o.dl[id] = data
+		o.mu.Unlock()
+		q := "id=" + id
+		if r.Intn(2) == 0 {
+			q += "&chunked=1"
+		}
+		hops := verifh.Pick(r, []int{0, 1, 1, 2, 3})
+		wantDigest := r.Intn(5) == 0
+		if wantDigest {
+			hops = 0
+		}
+		hopsize := verifh.Pick(r, []int{0, 37, 2047, 2048, 2049, 5000})
+		code := verifh.Pick(r, []int{301, 302, 303, 307, 308})
+		if hops > 0 {
+			q += fmt.Sprintf("&hops=%d&hopsize=%d&code=%d", hops, hopsize, code)
+		}
+		interim := r.Intn(4) == 0
+		if interim {
+			q += "&interim=1"
+		}
+		digest, retry := false, false
+		usize, esize := 0, 0
+		switch {
+		case wantDigest:
+			// (the digest re-send is a plain transport round trip to the ORIGINAL url: it does not
+			// compose with redirects — not a C17 matter — so a challenge comes without hops)
+			digest = true
+			usize = verifh.Pick(r, []int{0, 700, 5000})
+			q += "&usize=" + strconv.Itoa(usize)
+		case r.Intn(4) == 0:
+			retry = true
+			esize = verifh.Pick(r, []int{0, 900, 200000})
+			q += "&esize=" + strconv.Itoa(esize)
+		}
+		interval := verifh.Pick(r, []time.Duration{0, time.Hour, time.Hour})
+		var mu sync.Mutex
+		var emitted []int64
+		var out bytes.Buffer
+		req := c.R().SetDownloadCallbackWithInterval(func(info DownloadInfo) {
+			mu.Lock()
+			emitted = append(emitted, info.DownloadedSize)
+			mu.Unlock()
+		}, interval)
+		output := verifh.Pick(r, []string{"writer", "writer", "file", "none"})
+		fp := filepath.Join(dir, "hop"+id)
+		switch output {
+		case "writer":
+			req.SetOutput(&out)
+		case "file":
+			req.SetOutputFile(fp)
+		}
+		if digest {
+			req.SetDigestAuth("user", "pass")
+		}
+		if retry {
+			req.SetRetryCount(2).SetRetryFixedInterval(time.Millisecond).
+				SetRetryCondition(func(resp *Response, err error) bool { return err != nil || resp.StatusCode == 503 })
+		}
+		resp, err := req.Get(o.base + "/dl?" + q)
+		ok := err == nil && resp != nil && resp.StatusCode == 200
+		detail := ""
+		if !ok {
+			detail = fmt.Sprintf("err=%v", err)
+			if resp != nil && resp.Response != nil {
+				detail += " status=" + strconv.Itoa(resp.StatusCode)
+			}
+		}
+		// the bodies the attempts END with: (503 body,) file
+		finals := []int{size}
+		if retry {
+			finals = []int{esize, size}
+		}
+		if output == "none" {
+			finals = nil // no wrapper without an output: the callback is never called
+			if ok && !bytes.Equal(resp.Bytes(), data) {
+				ok, detail = false, "plain read: body differs"
+			}
+		} else if ok {
+			var got []byte
+			if output == "file" {
+				got, _ = os.ReadFile(fp)
+			} else {
+				got = out.Bytes()
+			}
+			if !bytes.HasSuffix(got, data) {
+				ok, detail = false, fmt.Sprintf("saved %d bytes do not end with the %d bytes of the file", len(got), size)
+			}
+		}
+		mu.Lock()
+		// one strictly increasing run per attempt, ending at the attempt's body size
+		k := 0
+		var last int64
+		for _, e := range emitted {
+			for k < len(finals) && finals[k] == 0 {
+				k++
+			}
+			if k >= len(finals) {
+				ok, detail = false, fmt.Sprintf("report %d after all attempts were complete", e)
+				break
+			}
+			if e <= last || e > int64(finals[k]) {
+				ok, detail = false, fmt.Sprintf("report %d after %d while downloading a body of %d bytes", e, last, finals[k])
+				break
+			}
+			last = e
+			if e == int64(finals[k]) {
+				k, last = k+1, 0
+			}
+		}
+		for k < len(finals) && finals[k] == 0 {
+			k++
+		}
+		if ok && k != len(finals) {
+			ok, detail = false, fmt.Sprintf("the reports end at %d, the body has %d bytes", last, finals[k])
+		}
+		got := c17Ints64(emitted)
+		mu.Unlock()
+		preceded := (hops > 0 && hopsize > 0) || (digest && usize > 0) || (retry && esize > 0)
+		s.Count(proto)
+		s.Count("output:" + output)
+		s.Count("hops-" + strconv.Itoa(hops))
+		if digest {
+			s.Count("digest-challenge")
+		}
+		if retry {
+			s.Count("retried")
+		}
+		if interim {
+			s.Count("interim-103")
+		}
+		if hops > 0 && hopsize > size {
+			s.Count("hop-body-larger-than-file")
+		}
+		// The known finding (before fixes/C17-11): every redirect response's body — the up to 2 KiB
+		// net/http reads of it — is reported by a reader of its OWN, then the final body correctly.
+		// Only exactly that pattern carries the class; anything else (a counter shared between the
+		// bodies, a final run that is wrong) is a new finding.
+		class := ""
+		if hops > 0 && hopsize > 0 && output != "none" && c17HopReportPattern(emitted, finals, hops, min(hopsize, 2048)) {
+			class = "c17-download-hop-body"
+		}
+		human := fmt.Sprintf("download %s file=%dB %d hop(s) %d with %dB bodies, interim=%v digest=%v(%dB) retry=%v(%dB) interval=%v output=%s -> reports %s %s",
+			proto, size, hops, code, hopsize, interim, digest, usize, retry, esize, interval, output, c17Trunc(got, 100), detail)
+		if interval == time.Hour {
+			hopList := "-"
+			if hops > 0 && output != "none" {
+				hl := make([]int, hops)
+				for j := range hl {
+					hl[j] = hopsize
+				}
+				hopList = verifh.IntList(hl)
+			}
+			fl := "-"
+			if len(finals) > 0 {
+				fl = verifh.IntList(finals)
+			}
+			s.Case("c17dlhops "+fl+" "+hopList, got, ok, class, preceded, human)
+		} else {
+			s.Observe("dlhops-"+id+"-"+proto, ok, class, preceded, human, detail)
+		}
+		o.mu.Lock()
+		delete(o.dl, id)
+		o.mu.Unlock()
+		c17Done(c)
+	}
+	s.Finish()
+}
+
+// c17HopReportPattern: per attempt, `hops` strictly increasing runs each ending exactly at hb (the
+// bytes of a redirect body that were read), then a strictly increasing run ending exactly at the
+// attempt's final body size.
+func c17HopReportPattern(seq []int64, finals []int, hops int, hb int) bool {
+	i := 0
+	run := func(end int64) bool {
+		if end == 0 {
+			return true
+		}
+		var last int64
+		for i < len(seq) {
+			e := seq[i]
+			if e <= last || e > end {
+				return false
+			}
+			last = e
+			i++
+			if e == end {
+				return true
+			}
+		}
+		return false
+	}
+	for _, f := range finals {
+		for j := 0; j < hops; j++ {
+			if !run(int64(hb)) {
+				return false
+			}
+		}
+		if !run(int64(f)) {
+			return false
+		}
+	}
+	return i == len(seq)
 }
